@@ -1178,6 +1178,85 @@ fn roundtrip_source(rep: &Reporter, st: &Stats, samples: &Smp, spec: &LangSpec, 
 
 // ---------------------------------------------------------------------------------------------
 
+/// Space D: the `convert` transformation on its way into the fix. Oracle restated from the transformation
+/// reference, without the splitter: a case conversion re-cases letters and re-joins words, it never drops or
+/// invents a letter — so the result and the captured text agree once separator characters are removed and
+/// both are lower-cased; `upperCase` / `lowerCase` are the std conversions of the whole capture.
+fn convert_family(rep: &Reporter, thorough: bool) -> Value {
+  let syms = ["a", "b", "B", "C", "é", "É", "д", "Д", "_", "-", "1"];
+  let max = if thorough { 5 } else { 4 };
+  let texts: Vec<String> = (0..gen::count(syms.len(), max)).map(|i| gen::nth_tokens(syms.len(), max, i).iter().map(|&t| syms[t]).collect::<String>()).filter(|t| !t.is_empty()).collect();
+  let cases = ["lowerCase", "upperCase", "capitalize", "camelCase", "snakeCase", "kebabCase", "pascalCase"];
+  let sep_sets: Vec<Option<Vec<&str>>> = vec![None, Some(vec!["caseChange"]), Some(vec!["underscore"]), Some(vec!["dash", "caseChange"]), Some(vec!["dash", "underscore"])];
+  let strip = |s: &str| s.chars().filter(|c| !matches!(c, '_' | '-' | '.' | '/' | ' ')).collect::<String>().to_lowercase();
+  let evals = AtomicU64::new(0);
+  let multibyte_boundary = AtomicU64::new(0);
+  let mut configs = vec![];
+  for c in cases {
+    for ss in &sep_sets {
+      let mut o = json!({"source": "$A", "toCase": c});
+      if let Some(ss) = ss {
+        o["separatedBy"] = json!(ss);
+      }
+      configs.push((c, o));
+    }
+  }
+  let greps: Vec<(String, AstGrep<D>)> = texts.iter().map(|t| (t.clone(), SupportLang::JavaScript.ast_grep(format!("'{t}'")))).collect();
+  configs.par_iter().for_each(|(c, o)| {
+    let doc = json!({"id": "t", "language": "JavaScript", "rule": {"pattern": "$A", "kind": "string_fragment"}, "transform": {"T": {"convert": o}}, "fix": "$T"});
+    let globals = GlobalRules::default();
+    let rule = match guarded(std::panic::AssertUnwindSafe(|| from_yaml_string::<SupportLang>(&doc.to_string(), &globals))) {
+      Ok(Ok(mut r)) => r.pop().unwrap(),
+      other => machinery(&format!("convert family: rule did not load: {:?}", other.map(|r| r.map(|_| ()).map_err(|e| format!("{e:?}"))))),
+    };
+    let fixer = match rule.get_fixer() {
+      Ok(Some(f)) => f,
+      _ => machinery("convert family: no fixer"),
+    };
+    for (t, g) in &greps {
+      let case = || json!({"kind": "convert", "text": t, "convert": o});
+      let got = guarded(std::panic::AssertUnwindSafe(|| {
+        let nm = g.root().find(&rule.matcher)?;
+        Some(String::from_utf8_lossy(&nm.make_edit(&rule.matcher, &fixer).inserted_text).to_string())
+      }));
+      evals.fetch_add(1, Ordering::Relaxed);
+      let cs: Vec<char> = t.chars().collect();
+      if cs.windows(2).any(|w| w[0].is_lowercase() && w[1].is_uppercase() && (w[0].len_utf8() > 1 || w[1].len_utf8() > 1)) {
+        multibyte_boundary.fetch_add(1, Ordering::Relaxed);
+      }
+      let got = match got {
+        Ok(Some(s)) => s,
+        Ok(None) => machinery(&format!("convert family: string fragment {t:?} not matched")),
+        Err(p) => {
+          rep.violation(&format!("panic:convert:{c}:{}", digits_out(&p)), case());
+          continue;
+        }
+      };
+      let exact = match *c {
+        "upperCase" => Some(t.to_uppercase()),
+        "lowerCase" => Some(t.to_lowercase()),
+        _ => None,
+      };
+      if let Some(e) = exact {
+        if got != e {
+          let mut v = case();
+          v["observed"] = json!(got);
+          v["expected"] = json!(e);
+          rep.violation(&format!("convert:{c}:not-the-case-conversion-of-the-capture"), v);
+        }
+      } else if strip(&got) != strip(t) {
+        let mut v = case();
+        v["observed"] = json!(got);
+        v["letters_expected"] = json!(strip(t));
+        rep.violation(&format!("convert:{c}:letters-of-the-capture-dropped-or-invented"), v);
+      }
+    }
+  });
+  json!({"texts": texts.len(), "symbols": syms, "max_symbols": max, "convert_configs": configs.len(), "evaluations": evals.load(Ordering::Relaxed),
+    "evaluations_with_a_lower_to_upper_boundary_at_a_multibyte_letter": multibyte_boundary.load(Ordering::Relaxed),
+    "oracle": "upperCase/lowerCase: equal to str::to_uppercase/to_lowercase of the capture; the five word-splitting cases: result and capture have the same letters in the same order once `_ - . / space` are removed and both are lower-cased"})
+}
+
 fn replay(rep: &Reporter, case: &Value) -> ! {
   let st = Stats::default();
   let samples = Smp::new(0);
@@ -1236,6 +1315,25 @@ fn replay(rep: &Reporter, case: &Value) -> ! {
       let g = spec.lang.ast_grep(src);
       let r = case["node"][0].as_u64().unwrap() as usize..case["node"][1].as_u64().unwrap() as usize;
       check_self(rep, &st, spec.name, spec.lang, &g, src, Some(r));
+    }
+    "convert" => {
+      let t = case["text"].as_str().unwrap();
+      let doc = json!({"id": "t", "language": "JavaScript", "rule": {"pattern": "$A", "kind": "string_fragment"}, "transform": {"T": {"convert": case["convert"].clone()}}, "fix": "$T"});
+      let globals = GlobalRules::default();
+      let rule = from_yaml_string::<SupportLang>(&doc.to_string(), &globals).unwrap_or_else(|e| machinery(&format!("replay: {e:?}"))).pop().unwrap();
+      let fixer = rule.get_fixer().ok().flatten().unwrap_or_else(|| machinery("replay: no fixer"));
+      let g = SupportLang::JavaScript.ast_grep(format!("'{t}'"));
+      let got = guarded(std::panic::AssertUnwindSafe(|| g.root().find(&rule.matcher).map(|nm| String::from_utf8_lossy(&nm.make_edit(&rule.matcher, &fixer).inserted_text).to_string())));
+      println!("capture  : {t:?}\nconvert  : {}\nobserved : {got:?}", case["convert"]);
+      let strip = |s: &str| s.chars().filter(|c| !matches!(c, '_' | '-' | '.' | '/' | ' ')).collect::<String>().to_lowercase();
+      let ok = match (&got, case["convert"]["toCase"].as_str().unwrap_or("")) {
+        (Ok(Some(s)), "upperCase") => *s == t.to_uppercase(),
+        (Ok(Some(s)), "lowerCase") => *s == t.to_lowercase(),
+        (Ok(Some(s)), _) => strip(s) == strip(t),
+        _ => false,
+      };
+      println!("replay: {} violation(s), 1 comparison", if ok { 0 } else { 1 });
+      std::process::exit(if ok { 0 } else { 1 })
     }
     k => machinery(&format!("unknown case kind {k:?}")),
   }
@@ -1406,7 +1504,9 @@ fn main() {
   per_lang.push(json!({"lang": "tab-indented sources (javascript, python, rust, go)", "sources": TAB_SOURCES.len()}));
   let secs_c = t_c.elapsed().as_secs_f64();
 
+  let space_d = convert_family(&rep, thorough);
   let cov = json!({
+    "space_D_convert": space_d,
     "evaluations": get(&st.evals),
     "distinct_nontrivial": get(&st.nontrivial),
     "rule": "an evaluation is one real generate_replacement call compared with the reference (one route of one (template, match) pair; the routes of a pair share one expected value). distinct_nontrivial counts DISTINCT (template or transform-variant template, layout) pairs of spaces A and B (disjoint by construction: B skips the sites of A for the enumerated templates, hand-written templates are not in A) whose replacement inserts at least one multi-line capture that the indentation clause covers, i.e. whose continuation lines are compared byte for byte; round-trip cases are counted separately under round_trip",
